@@ -270,8 +270,15 @@ def r07_5(ctx):
     app = [n for n in ast.walk(f.node) if isinstance(n, ast.Call) and isinstance(n.func, ast.Attribute) and n.func.attr in ("append", "add")
            and isinstance(n.func.value, ast.Subscript) and ast.unparse(n.func.value.value) == rev]
     invapp = [n for n in ast.walk(f.node) if isinstance(n, ast.Call) and ast.unparse(n.func) == f"{inv}.append"]
-    if not store or not app or not invapp:
+    if not store or not app:
         raise AnchorError("_parse_replacements: table updates not found")
+    if not invapp:
+        # the returned inversion table is not filled line by line: whatever derives it, it is no longer the record of which
+        # rename *lines* carried the `!`
+        ctx.bad("DeprecatedOptions._parse_replacements/the inversion is recorded for the alias of the line that carries `!`",
+                f"`{inv}` is not appended to line by line (no `{inv}.append(<alias>)`): inversion is derived from something else than the alias's own "
+                "rename line - a plain alias that shares its target with an inverted one is inverted too", f.loc(rets[0]))
+        return
     old, new = ast.unparse(store[0].targets[0].slice), ast.unparse(store[0].value)
     g_store, g_app = fl.guards_at(store[0]) or set(), fl.guards_at(app[0]) or set()
     construct = "DeprecatedOptions._parse_replacements/forward and reverse table updated together"
